@@ -417,7 +417,7 @@ pub fn run(ctx: &mut Ctx) {
             if !ctx.take("havoc", idx) {
                 continue;
             }
-            if idx % 4096 == 0 && ctx.time_up() {
+            if ctx.stop("havoc") {
                 ctx.notes.push(format!("havoc stopped at {} of {} (time budget)", idx, n));
                 break;
             }
